@@ -153,6 +153,8 @@ def units(tier, seed):
             us.append({'K': K, 'W': W, 'settings': si, 'code': 'hip_ra_x.py' if si % 2 else 'GEOPHIRESv3.py'})
     from . import c13main
     us += c13main.units(tier)
+    from . import c14stats      # the summarising step of main() rewrites nothing: rows of iterations that drew the same discrete vector both stay
+    us += [u for u in c14stats.units(tier) if u.get('dup')]
     return us
 
 
@@ -223,6 +225,10 @@ def run_unit(unit):
     if unit.get('harness') == 'main':
         from . import c13main
         yield from c13main.run_unit(unit)
+        return
+    if unit.get('harness') == 'stats':
+        from . import c14stats
+        yield from c14stats.run_unit(unit)
         return
     K, W, si, code = unit['K'], unit['W'], unit['settings'], unit['code']
     settings = [list(s) for s in SETTINGS[si]]
